@@ -198,6 +198,13 @@ class FilReader(Filterbank):
             unpack_buffer = None
             data = np.frombuffer(read_buffer, dtype=self.bitsinfo.dtype)
 
+        if (
+            start + nsamps == self.header.nsamples
+            and self._file.sinfo.get_combined("datalen")
+            != self.header.nsamples * self.samp_stride
+        ):
+            msg = "Data length of the file(s) is not a whole number of samples"
+            raise ValueError(msg)
         self._file.seek(start * self.samp_stride)
         nreads, lastread = divmod(nsamps, (gulp - skipback))
         if lastread < skipback:
@@ -215,8 +222,12 @@ class FilReader(Filterbank):
                 f"read_plan: Reading block {ii}/{nreads}, {block} elements, "
                 f"with skipback={skip}",
             )
-            nbytes = self._file.creadinto(read_buffer, unpack_buffer)
             expected_nbytes = int(block * self.chan_stride)
+            # Read only this block: a partial last block must not run past the range
+            nbytes = self._file.creadinto(
+                memoryview(read_buffer)[:expected_nbytes],
+                None if unpack_buffer is None else memoryview(unpack_buffer)[:block],
+            )
             if nbytes != expected_nbytes:
                 msg = (
                     f"Unexpected number of bytes read from file {nbytes} (actual) "
